@@ -6,6 +6,11 @@ Families:
   sol     convert_solution with dict / list / tuple x boolean / spin x flag (+ malformed stream)
   isspin  is_solution_spin
   export  Q, h, J, matrix_to_qubo, qubo_to_matrix (+ round trips) on dyadic values
+  hist    one labelled object under a history of item edits (incl. cancellations), clear(), `*= dict`,
+          set_mapping / set_reverse_mapping with a permutation, refresh(), copy(), interleaved with to_*,
+          to_enumerated, the free functions and convert_solution; after every conversion the correspondence
+          (model fed the terms / mapping / num_binary_variables the object has at that moment) and the round-trip
+          oracle M.value(M.convert_solution(s)) == E.value(s) on all s, labels of E within 0..n-1
 Models are built from raw items (unsorted, repeated labels, zero / cancelling coefficients) and then
 refresh()ed, or from an already canonical dict; stale bookkeeping (DESIGN §10 D1) is C14's business.
 """
@@ -20,10 +25,14 @@ RULE = ("sources: the ten model types and raw dicts (unsorted keys, repeated lab
         "realisations; every free conversion function, every to_* method of the labelled types whenever no "
         "degree reduction is needed, convert_solution over containers/forms/flags, exports and matrix round "
         "trips; a case is non-trivial when the source has >=2 terms and a key with >=2 distinct labels (conv, "
-        "meth), >=2 variables (sol), or >=2 non-zero entries (export); distinct = distinct case JSON")
+        "meth), >=2 variables (sol), or >=2 non-zero entries (export); plus histories on one object (edits, "
+        "cancellations, clear, *= dict, set_mapping/set_reverse_mapping permutations, refresh, copy) interleaved with "
+        "conversions and convert_solution round trips, non-trivial when >=3 steps on a non-empty model; "
+        "distinct = distinct case JSON")
 ASSUMPTIONS = ["float coefficients are restricted to dyadic rationals so IEEE arithmetic is exact",
-               "models are in refreshed bookkeeping state (constructed from a canonical dict, or refresh() called); "
-               "the mapping / reverse_mapping / num_binary_variables the model reads are taken from the real object"]
+               "the mapping / reverse_mapping / num_binary_variables the model reads are taken from the real object at "
+               "the moment of the call (single-call families: constructed or refreshed objects; hist family: after an "
+               "arbitrary history on the object); that they are consistent is checked by the round-trip oracle"]
 
 BOOL_KINDS = ["QUBO", "PUBO", "PCBO", "QUBOMatrix", "PUBOMatrix"]
 SPIN_KINDS = ["QUSO", "PUSO", "PCSO", "QUSOMatrix", "PUSOMatrix"]
@@ -701,6 +710,295 @@ def export_oracle(c, canon, r):
 
 # ------------------------------------------------------------------ driver of the check
 
+# ------------------------------------------------------------------ family hist
+# One labelled object with a HISTORY: item edits (incl. cancellations), clear(), `*= dict`, set_mapping /
+# set_reverse_mapping with a permutation, refresh(), copy(), interleaved with conversions and convert_solution.
+# After every conversion: the correspondence (the Lean model is fed the terms, mapping, reverse_mapping and
+# num_binary_variables the object has at that moment) and the oracle
+#   M.value(M.convert_solution(s)) == E.value(s) on every assignment s of 0..n-1, labels of E within 0..n-1
+#   and within the image of M's labels under M.mapping.
+
+HIST_METHS = ["to_qubo", "to_quso", "to_pubo", "to_puso", "to_enumerated"]
+
+
+def hist_edit(rng, n, maxd):
+    r = rng.random()
+    if r < 0.2:
+        return {"op": "cancel", "j": rng.randrange(8)}
+    key = gen_key(rng, n, maxd, maxlen=3)
+    return {"op": "add" if r < 0.7 else "set", "key": key, "v": gen_coef(rng, True)}
+
+
+def hist_conv(rng, kind, maxd):
+    r = rng.random()
+    if r < 0.7:
+        meth = rng.choice(HIST_METHS)
+        st = {"op": "to", "meth": meth}
+        if kind not in DEG2 and meth in ("to_pubo", "to_puso") and rng.random() < 0.25:
+            st["degplus"] = rng.choice([0, 1, 2])     # deg = max(2, current degree) + degplus
+        return st
+    if r < 0.85:
+        spin = is_spin_kind(kind)
+        fs_ = [f for f, (fam, quad) in sorted(FREE.items()) if (fam == "spin") == spin and (maxd <= 2 or not quad)]
+        return {"op": "free", "f": rng.choice(fs_)}
+    return {"op": "sol", "bits": [rng.randint(0, 1) for _ in range(8)], "form": rng.choice(["bool", "spin"]),
+            "container": rng.choice(["dict", "list", "tuple"]), "flag": rng.choice([None, True, False])}
+
+
+def hist_relabel(rng):
+    return {"op": "relabel", "perm": [rng.randrange(100) for _ in range(6)], "reverse": rng.random() < 0.5}
+
+
+def hist_case(rng, malformed=False):
+    spin = rng.random() < 0.5
+    kind = rng.choice(LABELLED_SPIN if spin else LABELLED_BOOL)
+    n = rng.randint(2, 4)
+    maxd = 2 if (kind in DEG2 or rng.random() < 0.5) else 3
+    init = gen_terms(rng, n, maxd, dyadic=True)
+    steps = []
+    shape = rng.random()
+    if shape < 0.3:
+        # convert, relabel, convert again (no term change in between)
+        cv = hist_conv(rng, kind, maxd)
+        steps += [cv, hist_relabel(rng), dict(cv)]
+        if rng.random() < 0.5:
+            steps.append(hist_conv(rng, kind, maxd))
+    elif shape < 0.6:
+        # empty the object (clear / *= dict), rebuild with partly other labels, convert
+        steps.append(hist_conv(rng, kind, maxd))
+        if rng.random() < 0.6:
+            steps.append({"op": "clear"})
+        else:
+            steps.append({"op": "imul", "d": [[[rng.randrange(n)] if rng.random() < 0.7 else [], gen_coef(rng, True)]]})
+        for _ in range(rng.randint(1, 3)):
+            steps.append(hist_edit(rng, n, maxd))
+        steps += [hist_conv(rng, kind, maxd), hist_conv(rng, kind, maxd)]
+    for _ in range(rng.randint(2, 7)):
+        r = rng.random()
+        if r < 0.4:
+            steps.append(hist_conv(rng, kind, maxd))
+        elif r < 0.7:
+            steps.append(hist_edit(rng, n, maxd))
+        elif r < 0.8:
+            steps.append(hist_relabel(rng))
+        elif r < 0.86:
+            steps.append({"op": "clear"})
+        elif r < 0.9:
+            steps.append({"op": "imul", "d": [[[rng.randrange(n)] if rng.random() < 0.7 else [], gen_coef(rng, True)]]})
+        elif r < 0.95:
+            steps.append({"op": "refresh"})
+        else:
+            steps.append({"op": "copy"})
+    if not any(st["op"] in ("to", "free", "sol") for st in steps[-2:]):
+        steps.append(hist_conv(rng, kind, maxd))
+    return {"family": "hist", "kind": kind, "n": n, "init": init, "steps": steps,
+            "labels": rng.choice(Labels.STYLES), "num": rng.choice(["int", "frac", "float"])}
+
+
+def hist_terms(M, L):
+    """the object's terms, in dict order, as the model reads them"""
+    return [[L.ids(k), fs(v)] for k, v in M.items()]
+
+
+def hist_sol_container(vals, container, i=0):
+    if container == "dict":
+        order = list(range(len(vals)))
+        order = order[i % (len(order) or 1):] + order[:i % (len(order) or 1)]
+        return {j: vals[j] for j in order}
+    return list(vals) if container == "list" else tuple(vals)
+
+
+def hist_roundtrip(M, E, target, L):
+    """M.value(M.convert_solution(s)) == E.value(s) on all assignments; labels of E"""
+    nv = M.num_binary_variables
+    mp = M.mapping
+    stored = {x for k in M for x in k}
+    elabs = {i for k in E for i in k}
+    if not elabs <= set(range(nv)):
+        return "%s uses the labels %s but num_binary_variables is %d (mapping %r)" % (target, sorted(elabs), nv, mp)
+    if not stored <= set(mp) or not elabs <= {mp[l] for l in stored}:
+        return "%s uses the labels %s, the model's labels are mapped to %s (mapping %r)" % (
+            target, sorted(elabs), sorted(mp[l] for l in stored if l in mp), mp)
+    spin_tgt = target in ("to_quso", "to_puso")
+    for idx, bits in enumerate(assignments(nv)):
+        vals = [(1 - 2 * b) if spin_tgt else b for b in bits]
+        sol = hist_sol_container(vals, ("tuple", "list", "dict")[idx % 3], idx)
+        ev = obj_value(E.items(), dict(enumerate(map(Fraction, vals))))
+        r = M.convert_solution(sol, spin_tgt)
+        if not stored <= set(r):
+            return "convert_solution(%r) = %r misses labels of the model %r" % (sol, r, sorted(map(str, stored)))
+        mv = obj_value(M.items(), {k: Fraction(v) for k, v in r.items()})
+        mv2 = Fraction(M.value(r))
+        ev2 = Fraction(E.value(sol))
+        if not (ev == mv == mv2 == ev2):
+            return "%s().value(s) = %s (%s by terms) but M.value(M.convert_solution(s)) = %s (%s by terms) at s = %r " \
+                   "(mapping %r)" % (target, ev2, ev, mv2, mv, sol, mp)
+    return None
+
+
+def run_hist(c, want_lines=True):
+    """execute the history on the real object.  Returns (records, findings): records = (line, impl canon, tag) for
+    the driver; findings = (signature, why) from the direct oracle."""
+    from qubovert import utils
+    L = Labels(c["labels"])
+    recs, found = [], []
+    try:
+        M = build(c["kind"], c["init"], L, c["num"])
+    except Exception as e:
+        return recs, [("C04:hist", "constructor raised %s: %s" % (type(e).__name__, e))]
+    kind, spin_model = c["kind"], is_spin_kind(c["kind"])
+    for i, st in enumerate(c["steps"]):
+        op = st["op"]
+        where = "step %d (%s)" % (i, json.dumps(st))
+        try:
+            if op in ("add", "set"):
+                key, v = L.key(st["key"]), num_of(st["v"], c["num"])
+                if kind in DEG2 and len(squashed(st["key"], spin_model)) > 2:
+                    continue
+                if op == "add":
+                    M[key] += v
+                else:
+                    M[key] = v
+            elif op == "cancel":
+                ks = list(M)
+                if ks:
+                    k = ks[st["j"] % len(ks)]
+                    M[k] -= M[k]
+            elif op == "clear":
+                M.clear()
+            elif op == "imul":
+                d = {L.key(k): num_of(v, c["num"]) for k, v in st["d"]}
+                try:
+                    M *= d
+                except KeyError:
+                    if kind not in DEG2:
+                        raise
+            elif op == "refresh":
+                M.refresh()
+            elif op == "copy":
+                M = M.copy()
+            elif op == "relabel":
+                mp = M.mapping
+                labs, vals = list(mp), list(mp.values())
+                order = sorted(range(len(vals)), key=lambda t: (st["perm"][t % len(st["perm"])], t))
+                new = {labs[t]: vals[order[t]] for t in range(len(labs))}
+                if st["reverse"]:
+                    M.set_reverse_mapping({v: k for k, v in new.items()})
+                else:
+                    M.set_mapping(new)
+            elif op == "to":
+                deg_now = max([len(k) for k in M], default=0)
+                target = ENUM_METH[kind] if st["meth"] == "to_enumerated" else st["meth"]
+                if kind not in DEG2 and target in ("to_qubo", "to_quso") and deg_now > 2:
+                    continue          # degree reduction would be needed: property C01
+                deg = max(2, deg_now) + st["degplus"] if "degplus" in st else None
+                line = {"op": "c04meth", "kind": kind, "p": hist_terms(M, L), "meth": st["meth"],
+                        "mapping": [[L.ident(k), v] for k, v in M.mapping.items()]}
+                if deg is not None:
+                    line["deg"] = deg
+                E = getattr(M, st["meth"])(deg) if deg is not None else getattr(M, st["meth"])()
+                recs.append((line, {"type": type(E).__name__, "terms": canon_terms(E, Labels("int"))},
+                             "hist:%s:%s" % (kind, st["meth"])))
+                if type(E).__name__ != DOC_TYPE[target]:
+                    found.append(("C04:hist", "%s: result type %s, documented %s" % (where, type(E).__name__, DOC_TYPE[target])))
+                bad = common.keys_are_canonical(E) or hist_roundtrip(M, E, target, L)
+                if bad:
+                    found.append(("C04:hist", "%s: %s" % (where, bad)))
+            elif op == "free":
+                f = st["f"]
+                if FREE[f][1] and max([len(k) for k in M], default=0) > 2:
+                    continue
+                line = {"op": "c04conv", "f": f, "kind": kind, "p": hist_terms(M, L)}
+                R = getattr(utils, f)(M)
+                recs.append((line, {"type": type(R).__name__, "terms": canon_terms(R, L)}, "hist:%s:%s" % (kind, f)))
+                if type(R).__name__ != type_rule(f, kind):
+                    found.append(("C04:type-rule:%s:%s" % (f, kind), "%s: returned a %s" % (where, type(R).__name__)))
+                labs = sorted({x for k in M for x in k} | {x for k in R for x in k}, key=L.ident)
+                for bits in assignments(len(labs)):
+                    src = {l: Fraction((1 - 2 * b) if spin_model else b) for l, b in zip(labs, bits)}
+                    tgt = {l: Fraction(b if spin_model else (1 - 2 * b)) for l, b in zip(labs, bits)}
+                    if obj_value(M.items(), src) != obj_value(R.items(), tgt):
+                        found.append(("C04:hist", "%s: %s changes the value at %r" % (where, f, src)))
+                        break
+            elif op == "sol":
+                nv = M.num_binary_variables
+                bits = (st["bits"] * 2)[:nv + (st["bits"][0] if st["bits"] else 0)]
+                vals = [b if st["form"] == "bool" else 1 - 2 * b for b in bits]
+                sol = hist_sol_container(vals, st["container"], st["bits"][-1] if st["bits"] else 0)
+                flag = st["flag"] if st["flag"] is not None else spin_model
+                items = list(sol.items()) if isinstance(sol, dict) else list(enumerate(sol))
+                line = {"op": "c04sol", "spin_model": spin_model,
+                        "rev": [[j, L.ident(l)] for j, l in M.reverse_mapping.items()], "n": nv,
+                        "sol": [[j, fs(v)] for j, v in items], "is_dict": isinstance(sol, dict), "flag": bool(flag)}
+                try:
+                    r = M.convert_solution(sol) if st["flag"] is None else M.convert_solution(sol, st["flag"])
+                    canon = {"assign": sorted([L.ident(k), fs(v)] for k, v in r.items())}
+                except (KeyError, IndexError) as e:
+                    canon = {"err": exc_name(e)}
+                recs.append((line, canon, "hist:%s:sol" % kind))
+                allones = all(v == 1 for v in vals)
+                if "err" in canon and not (allones and (st["form"] == "spin") != bool(flag)) and len(vals) >= nv:
+                    found.append(("C04:hist", "%s: convert_solution raised %s" % (where, canon["err"])))
+        except Exception as e:
+            found.append(("C04:hist", "%s raised %s: %s" % (where, type(e).__name__, e)))
+            break
+    return recs, found
+
+
+def shrink_hist(c, sig):
+    """greedy removal of steps and initial terms while the direct oracle still reports `sig`"""
+    def fails(d):
+        try:
+            return any(s_ == sig for s_, _ in run_hist(d)[1])
+        except Exception:
+            return False
+    cur = c
+    changed = True
+    while changed:
+        changed = False
+        for field in ("steps", "init"):
+            i = 0
+            while i < len(cur[field]):
+                d = dict(cur, **{field: cur[field][:i] + cur[field][i + 1:]})
+                if fails(d):
+                    cur, changed = d, True
+                else:
+                    i += 1
+    return cur
+
+
+def process_hist(ctx, cases):
+    runs, lines = [], []
+    for c in cases:
+        recs, found = run_hist(c)
+        runs.append((c, recs, found, len(lines)))
+        lines += [r[0] for r in recs]
+    models = common.run_driver(lines)
+    for c, recs, found, off in runs:
+        ctx.case(c, len(c["steps"]) >= 3 and len(c["init"]) >= 1)
+        ctx.count("hist:histories")
+        ctx.count("hist:steps", len(c["steps"]))
+        for (line, canon, tag), m in zip(recs, models[off:off + len(recs)]):
+            if "driver_error" in m:
+                raise common.Infra("driver error %s on %s" % (m, json.dumps(line)[:300]))
+            if m.get("noop") is False:
+                ctx.count("skipped:reduction-needed")
+                continue
+            m = {k: v for k, v in m.items() if k != "noop"}
+            ctx.count(tag + (":err:" + canon["err"] if "err" in canon else ""))
+            ctx.traces += 1
+            if canon != m:
+                ctx.diff("hist", dict(c, at=line), canon, m)
+        seen = set()
+        for sig, why in found:
+            if sig in seen:
+                continue
+            seen.add(sig)
+            small = shrink_hist(c, sig)
+            why2 = [w for s_, w in run_hist(small)[1] if s_ == sig]
+            ctx.violation(sig, small, why2[0] if why2 else why)
+
+
 def nontrivial(c):
     if c["family"] in ("conv", "meth"):
         return len(c["p"]) >= 2 and any(len(set(k)) >= 2 for k, _ in c["p"])
@@ -722,6 +1020,10 @@ def guarded(oracle, *args):
 
 
 def process(ctx, cases):
+    hist = [c for c in cases if c["family"] == "hist"]
+    if hist:
+        process_hist(ctx, hist)
+        cases = [c for c in cases if c["family"] != "hist"]
     lines, states = [], []
     for c in cases:
         fam = c["family"]
@@ -790,6 +1092,7 @@ def gen_cases(rng, k):
         for _ in range(int(k * share)):
             cases.append(g(rng, malformed=rng.random() < 0.08))
     cases += [isspin_case(rng) for _ in range(max(20, k // 30))]
+    cases += [hist_case(rng) for _ in range(k // 6)]
     return cases
 
 
